@@ -64,23 +64,28 @@ Example ex_hsdp_run :
     /\ hsdp_shards 0 2 true ex_ms ex_T c 1 = [[7; 19; 29; 39; 48; 58; 68; 76]; []; [-2; -1; 0; 1; 2; 3]].
 Proof. eexists. split; [vm_compute; reflexivity|]. split; vm_compute; reflexivity. Qed.
 
-(* EXPECTED REFUTATION (defect F6 through HSDPDistributor): rank 0 of the replicate group owns the four blocks of the
-   first parameter, rank 1 the two blocks of the third.  A step in which only the third parameter has a gradient leaves
-   rank 0 with owned blocks but none with a gradient: it skips the step and the all-gather, its peer waits. *)
+(* Defect F6 through HSDPDistributor (repaired in /repo): rank 0 of the replicate group owns the four blocks of the first
+   parameter, rank 1 the two blocks of the third.  A step in which only the third parameter has a gradient leaves rank 0
+   with owned blocks but none with a gradient.  With the skip rule as repaired the run exists and the replicas agree; in
+   the pre-repair variant (p_global_skip = false) rank 0 skips the step and the all-gather and its peer waits. *)
 Definition ex_owner_bad (b : nat) : nat := if (b <? 4)%nat then 0%nat else 1%nat.
 Definition ex_hP_bad := hsdp_P 0 ex_upd ex_add (fun v => v) 2 2 ex_owner_bad 2 true ex_ms.
 Definition ex_h_bad : list (pentry Z) :=
   [ [Some [1; 1; 1; 1; 2; 2; 2; 2]; None; Some [3; 3; 3; 3; 3; 3]]; [None; None; Some [1; 1; 1; 1; 1; 1]] ].
 
-Theorem hsdp_starvation_refuted :
+Theorem hsdp_starvation_harmless :
   wf_config ex_hP_bad /\ (forall r, (r < 2)%nat -> owns_any ex_hP_bad r = true)
   /\ no_starv_entry ex_hP_bad (nth 1 (map (fsdp_entry 0 2 (fsdp_init 2 true ex_ms) ex_ms) ex_h_bad) []) = false
-  /\ hsdp_col_run 0 0 ex_upd ex_add (fun v => v) 2 2 ex_owner_bad 2 true ex_ms ex_T ex_h_bad = None.
+  /\ (exists c, hsdp_col_run 0 0 ex_upd ex_add (fun v => v) 2 2 ex_owner_bad 2 true ex_ms ex_T ex_h_bad = Some c
+         /\ vals (cget c 0) = vals (cget c 1) /\ stepc (cget c 0) = 2%Z /\ stepc (cget c 1) = 2%Z)
+  /\ ddp_run (set_global_skip ex_hP_bad false) (map (fsdp_entry 0 2 (fsdp_init 2 true ex_ms) ex_ms) ex_h_bad)
+             (hsdp_col_init 0 0 ex_upd ex_add (fun v => v) 2 2 ex_owner_bad 2 true ex_ms ex_T) = None.
 Proof.
-  split; [|split; [|split]].
+  split; [|split; [|split; [|split]]].
   - split; [cbn; lia|]. split; [reflexivity|]. intros b _. unfold ex_hP_bad, hsdp_P, blockP. cbn [p_owner p_gs]. unfold ex_owner_bad.
     destruct (b <? 4)%nat; lia.
   - intros r Hr. destruct r as [|[|r]]; [reflexivity | reflexivity | lia].
   - vm_compute. reflexivity.
+  - eexists. split; [vm_compute; reflexivity|]. repeat split; vm_compute; reflexivity.
   - vm_compute. reflexivity.
 Qed.
